@@ -171,7 +171,7 @@ func clone(h githash.Hash) githash.Hash {
 // references
 
 func (s *Store) GetReference(refName string) (githash.Hash, error) {
-	if s.call("GetReference") {
+	if s.call("GetReference " + refName) {
 		return nil, ErrInjected
 	}
 	defer s.after()
@@ -875,6 +875,20 @@ func (s *Store) RawCommit(ref string, treeID githash.Hash, parents []githash.Has
 func (s *Store) PutCommit(id githash.Hash, treeID githash.Hash, parents []githash.Hash, message string, signer int) {
 	s.commits[key(id)] = &Commit{ID: clone(id), Tree: clone(treeID), Parents: parents, Message: message, Signer: signer}
 	s.order = append(s.order, key(id))
+}
+
+// DropRef removes a reference without counting a call.
+func (s *Store) DropRef(refName string) {
+	if _, ok := s.refs[refName]; !ok {
+		return
+	}
+	delete(s.refs, refName)
+	for i, r := range s.refOrder {
+		if r == refName {
+			s.refOrder = append(s.refOrder[:i:i], s.refOrder[i+1:]...)
+			break
+		}
+	}
 }
 
 // SetRef points a reference without counting a call.
